@@ -6,6 +6,7 @@ package main
 // initialiser and recognise a member of the current row inside the loop, so a rule can evaluate the loop body once per row.
 
 import (
+	"go/constant"
 	"go/token"
 	"go/types"
 
@@ -281,4 +282,659 @@ func recordCopySource(al *ssa.Alloc) ssa.Value {
 		return nil
 	}
 	return src
+}
+
+// ---- finding a row by its key ----
+
+// A table of rows that is searched by key is the record form of a map: `func find(k) (row, bool)` walks the whole table, compares
+// the key member of the current row with k and returns (that row, true) on the first hit, (zero, false) after the loop. A rule that
+// understands `v, ok := m[k]` understands `row, ok := find(k)` the same way: the boolean is the membership test, a member of the
+// row that is returned is the member of the row whose key is k.
+
+type rowLookup struct {
+	fn       *ssa.Function
+	g        *ssa.Global
+	keyField int // the member compared with the key
+	param    int // the parameter that is the key
+	rowRes   int // the result that is the row found (-1: the function only answers whether there is one)
+	okRes    int // the boolean result
+}
+
+var rowLookupMemo = map[*ssa.Function]*rowLookup{}
+
+// rowElemOf: v reads member `field` of the element at `ia` of a table (through the element's address or a copy of the element);
+// with field -1: v is the whole element (a load of it, of its copy, or its address).
+func (w *World) rowElemOf(v ssa.Value) (ia *ssa.IndexAddr, field int, ok bool) {
+	v = stripIdentity(v)
+	var elemAddr ssa.Value
+	field = -1
+	switch x := v.(type) {
+	case *ssa.IndexAddr:
+		elemAddr = x
+	case *ssa.Field:
+		if ld, isLd := stripIdentity(x.X).(*ssa.UnOp); isLd && ld.Op == token.MUL {
+			elemAddr, field = ld.X, x.Field
+		}
+	case *ssa.UnOp:
+		if x.Op != token.MUL {
+			return nil, 0, false
+		}
+		if fa, isFA := x.X.(*ssa.FieldAddr); isFA {
+			elemAddr, field = fa.X, fa.Field
+		} else {
+			elemAddr = x.X
+		}
+	}
+	if al, isAl := elemAddr.(*ssa.Alloc); isAl {
+		if src := recordCopySource(al); src != nil {
+			elemAddr = src
+		}
+	}
+	ia, ok = elemAddr.(*ssa.IndexAddr)
+	if !ok {
+		return nil, 0, false
+	}
+	if g := tableOfElem(ia); g == nil || w.tableRows(g) == nil {
+		return nil, 0, false
+	}
+	return ia, field, true
+}
+
+func tableOfElem(ia *ssa.IndexAddr) *ssa.Global {
+	base := stripIdentity(ia.X)
+	if g, ok := base.(*ssa.Global); ok {
+		return g
+	}
+	if ld, ok := base.(*ssa.UnOp); ok && ld.Op == token.MUL {
+		g, _ := ld.X.(*ssa.Global)
+		return g
+	}
+	return nil
+}
+
+// walksWholeList: the index of ia runs over every element of the list: the index of a `range` loop, or of
+// `for i := 0; i < len(list); i++`.
+func walksWholeList(ia *ssa.IndexAddr) bool {
+	isInt := func(v ssa.Value, k int64) bool {
+		c, ok := v.(*ssa.Const)
+		return ok && c.Value != nil && c.Value.Kind() == constant.Int && c.Int64() == k
+	}
+	var phi *ssa.Phi
+	first := int64(0)
+	switch ix := ia.Index.(type) {
+	case *ssa.BinOp: // range: index = phi + 1, phi starts at -1
+		p, ok := ix.X.(*ssa.Phi)
+		if !ok || ix.Op != token.ADD || !isInt(ix.Y, 1) {
+			return false
+		}
+		phi, first = p, -1
+	case *ssa.Phi:
+		phi = ix
+	default:
+		return false
+	}
+	// the counter starts before the first element and is only ever advanced by one
+	starts := false
+	for _, e := range phi.Edges {
+		switch {
+		case isInt(e, first):
+			starts = true
+		case first == -1 && e == ia.Index:
+		default:
+			bo, ok := e.(*ssa.BinOp)
+			if first != 0 || !ok || bo.Op != token.ADD || bo.X != ssa.Value(phi) || !isInt(bo.Y, 1) {
+				return false
+			}
+		}
+	}
+	if !starts {
+		return false
+	}
+	// the loop is left only when the counter reaches len(list)
+	cond, ok := branchCond(phi.Block()).(*ssa.BinOp)
+	if !ok || cond.Op != token.LSS || cond.X != ia.Index {
+		return false
+	}
+	ln, ok := cond.Y.(*ssa.Call)
+	if !ok || len(ln.Call.Args) != 1 {
+		return false
+	}
+	if b, isB := ln.Call.Value.(*ssa.Builtin); !isB || b.Name() != "len" {
+		return false
+	}
+	if g := tableOfElem(ia); ln.Call.Args[0] != ia.X && (g == nil || !loadsGlobal(ln.Call.Args[0], g)) {
+		return false
+	}
+	return edgeDominates(phi.Block(), 0, ia.Block())
+}
+
+// rowLookupOf: fn finds a row of a table by its key (see above). nil when it is not of that shape.
+func (w *World) rowLookupOf(fn *ssa.Function) *rowLookup {
+	if fn == nil || fn.Blocks == nil {
+		return nil
+	}
+	if lk, ok := rowLookupMemo[fn]; ok {
+		return lk
+	}
+	rowLookupMemo[fn] = nil
+	res := fn.Signature.Results()
+	okRes := -1
+	for i := 0; i < res.Len(); i++ {
+		if types.Identical(res.At(i).Type().Underlying(), types.Typ[types.Bool]) {
+			if okRes >= 0 {
+				return nil
+			}
+			okRes = i
+		}
+	}
+	if okRes < 0 || res.Len() > 2 {
+		return nil
+	}
+	// the one comparison of a row's member with a parameter
+	var eq *ssa.BinOp
+	var ia *ssa.IndexAddr
+	keyField, param := -1, -1
+	bad := false
+	forEachInstr(fn, func(_ *ssa.BasicBlock, ins ssa.Instruction) {
+		bo, isBo := ins.(*ssa.BinOp)
+		if !isBo || (bo.Op != token.EQL && bo.Op != token.NEQ) {
+			return
+		}
+		for _, pair := range [][2]ssa.Value{{bo.X, bo.Y}, {bo.Y, bo.X}} {
+			p, isP := stripIdentity(pair[1]).(*ssa.Parameter)
+			if !isP {
+				continue
+			}
+			a, f, isRow := w.rowElemOf(pair[0])
+			if !isRow || f < 0 {
+				continue
+			}
+			if eq != nil {
+				bad = true
+				return
+			}
+			eq, ia, keyField = bo, a, f
+			for i, q := range fn.Params {
+				if q == p {
+					param = i
+				}
+			}
+		}
+	})
+	if bad || eq == nil || param < 0 || eq.Referrers() == nil || !walksWholeList(ia) {
+		return nil
+	}
+	var iff *ssa.If
+	for _, ref := range *eq.Referrers() {
+		switch x := ref.(type) {
+		case *ssa.If:
+			iff = x
+		case *ssa.DebugRef:
+		default:
+			return nil // the outcome is combined with something else
+		}
+	}
+	if iff == nil {
+		return nil
+	}
+	hit := 0
+	if eq.Op == token.NEQ {
+		hit = 1
+	}
+	// the block the hit edge leads to, through plain jumps
+	hitBlk := iff.Block().Succs[hit]
+	for i := 0; i < 4 && len(hitBlk.Instrs) == 1 && len(hitBlk.Succs) == 1; i++ {
+		hitBlk = hitBlk.Succs[0]
+	}
+	rowRes := -1
+	if res.Len() == 2 {
+		rowRes = 1 - okRes
+	}
+	nHit, nMiss := 0, 0
+	for _, b := range fn.Blocks {
+		ret, isRet := b.Instrs[len(b.Instrs)-1].(*ssa.Return)
+		if !isRet {
+			continue
+		}
+		if len(ret.Results) != res.Len() {
+			return nil
+		}
+		k, isConst := ret.Results[okRes].(*ssa.Const)
+		if !isConst || k.Value == nil || k.Value.Kind() != constant.Bool {
+			return nil
+		}
+		if constant.BoolVal(k.Value) {
+			// found: straight from the hit edge, with the row that was compared
+			if b != hitBlk || !edgeDominates(iff.Block(), hit, b) {
+				return nil
+			}
+			if rowRes >= 0 {
+				if a, f, isRow := w.rowElemOf(ret.Results[rowRes]); !isRow || f >= 0 || a != ia {
+					return nil
+				}
+			}
+			nHit++
+		} else {
+			if edgeDominates(iff.Block(), hit, b) {
+				return nil
+			}
+			if rowRes >= 0 {
+				if _, isC := ret.Results[rowRes].(*ssa.Const); !isC {
+					return nil
+				}
+			}
+			nMiss++
+		}
+	}
+	if nHit != 1 || nMiss == 0 {
+		return nil
+	}
+	lk := &rowLookup{fn: fn, g: tableOfElem(ia), keyField: keyField, param: param, rowRes: rowRes, okRes: okRes}
+	rowLookupMemo[fn] = lk
+	return lk
+}
+
+// foundRow: what a call site of a row lookup holds.
+type foundRow struct {
+	call *ssa.Call
+	lk   *rowLookup
+}
+
+// foundRowMember: v reads member `field` of the row a keyed lookup has returned (`spec, ok := find(name)` ... `spec.allowed`),
+// through the extracted result or the variable it was assigned to (assigned once, read member by member).
+func (w *World) foundRowMember(v ssa.Value) (fr foundRow, field int, ok bool) {
+	v = stripIdentity(v)
+	var rec ssa.Value
+	switch x := v.(type) {
+	case *ssa.Field:
+		rec, field = stripIdentity(x.X), x.Field
+		if ld, isLd := rec.(*ssa.UnOp); isLd && ld.Op == token.MUL {
+			if al, isAl := ld.X.(*ssa.Alloc); isAl {
+				rec = recordAssignedOnce(al)
+			}
+		}
+	case *ssa.UnOp:
+		fa, isFA := x.X.(*ssa.FieldAddr)
+		if x.Op != token.MUL || !isFA {
+			return fr, 0, false
+		}
+		field = fa.Field
+		switch base := stripIdentity(fa.X).(type) {
+		case *ssa.Alloc:
+			rec = recordAssignedOnce(base)
+		default:
+			rec = base // a pointer to the row
+		}
+	}
+	if rec == nil {
+		return fr, 0, false
+	}
+	ex, isEx := stripIdentity(rec).(*ssa.Extract)
+	if !isEx {
+		return fr, 0, false
+	}
+	call, isCall := ex.Tuple.(*ssa.Call)
+	if !isCall {
+		return fr, 0, false
+	}
+	lk := w.rowLookupOf(call.Call.StaticCallee())
+	if lk == nil || lk.rowRes != ex.Index {
+		return fr, 0, false
+	}
+	return foundRow{call, lk}, field, true
+}
+
+// recordAssignedOnce: al is a local record that is assigned once, as a whole, and otherwise only read (member by member or as a
+// whole): the value it was assigned. nil otherwise.
+func recordAssignedOnce(al *ssa.Alloc) ssa.Value {
+	if al.Referrers() == nil {
+		return nil
+	}
+	var val ssa.Value
+	n := 0
+	for _, ref := range *al.Referrers() {
+		switch x := ref.(type) {
+		case *ssa.Store:
+			if x.Addr != ssa.Value(al) {
+				return nil
+			}
+			n++
+			val = x.Val
+		case *ssa.FieldAddr:
+			if x.Referrers() != nil {
+				for _, r2 := range *x.Referrers() {
+					switch r2.(type) {
+					case *ssa.UnOp, *ssa.DebugRef:
+					default:
+						return nil
+					}
+				}
+			}
+		case *ssa.UnOp, *ssa.DebugRef:
+		default:
+			return nil
+		}
+	}
+	if n != 1 {
+		return nil
+	}
+	return val
+}
+
+// rowLookupTest: a branch on the boolean a keyed row lookup returns.
+type rowLookupTest struct {
+	found       foundRow
+	branch      *ssa.BasicBlock
+	presentSucc int
+}
+
+// rowLookupTests: the branches of fn that ask whether a key has a row in a table (the record form of membershipTests).
+func (w *World) rowLookupTests(fn *ssa.Function) []rowLookupTest {
+	var out []rowLookupTest
+	for _, b := range fn.Blocks {
+		c := branchCond(b)
+		if c == nil {
+			continue
+		}
+		neg := false
+		for {
+			if u, ok := c.(*ssa.UnOp); ok && u.Op == token.NOT {
+				neg, c = !neg, u.X
+				continue
+			}
+			break
+		}
+		ex, ok := c.(*ssa.Extract)
+		if !ok {
+			continue
+		}
+		call, ok := ex.Tuple.(*ssa.Call)
+		if !ok {
+			continue
+		}
+		lk := w.rowLookupOf(call.Call.StaticCallee())
+		if lk == nil || lk.okRes != ex.Index {
+			continue
+		}
+		s := 0
+		if neg {
+			s = 1
+		}
+		out = append(out, rowLookupTest{foundRow{call, lk}, b, s})
+	}
+	return out
+}
+
+// rowKeyArg: the key a call of a row lookup is given.
+func (fr foundRow) keyArg() ssa.Value {
+	if fr.lk.param < len(fr.call.Call.Args) {
+		return fr.call.Call.Args[fr.lk.param]
+	}
+	return nil
+}
+
+// listConstsOf: the string constants of a list value written as a literal, directly (`[]string{"a", "b"}`), or kept in a
+// package-level variable that only its initialiser assigns (`var booleans = []string{..}`); ok is false when v is neither (nil: an
+// empty list).
+func (w *World) listConstsOf(v ssa.Value) (out []string, ok bool) {
+	v = stripIdentity(v)
+	if isNilConst(v) {
+		return nil, true
+	}
+	if ld, isLd := v.(*ssa.UnOp); isLd && ld.Op == token.MUL {
+		g, isG := ld.X.(*ssa.Global)
+		if !isG || g.Pkg == nil {
+			return nil, false
+		}
+		// assigned once, by the initialiser
+		var val ssa.Value
+		n := 0
+		for fn := range w.allFuncs {
+			if fn.Blocks == nil || pkgOfFunc(fn) != g.Pkg {
+				continue
+			}
+			forEachInstr(fn, func(_ *ssa.BasicBlock, ins ssa.Instruction) {
+				switch x := ins.(type) {
+				case *ssa.Store:
+					if x.Addr == ssa.Value(g) {
+						n++
+						if fn == g.Pkg.Func("init") {
+							val = x.Val
+						}
+					}
+					if ia, isIA := x.Addr.(*ssa.IndexAddr); isIA && loadsGlobal(ia.X, g) {
+						n += 2
+					}
+				}
+			})
+		}
+		if n != 1 || val == nil {
+			return nil, false
+		}
+		v = stripIdentity(val)
+	}
+	ops := variadicOperands(v)
+	if ops == nil {
+		return nil, false
+	}
+	for _, e := range ops {
+		s, isS := constString(e)
+		if e == nil || !isS {
+			return nil, false
+		}
+		out = append(out, s)
+	}
+	return out, true
+}
+
+// keyedListTable: the record form of a package-level `map[string][]string`: a table of the model package that is searched by a
+// string key member (rowLookupOf) and whose rows carry one list of strings.
+type keyedListTable struct {
+	g         *ssa.Global
+	keyField  int
+	listField int
+}
+
+func (w *World) keyedListTables() []keyedListTable {
+	var out []keyedListTable
+	seen := map[*ssa.Global]bool{}
+	for _, fn := range w.srcFuncs {
+		if fn.Pkg != w.Model {
+			continue
+		}
+		lk := w.rowLookupOf(fn)
+		if lk == nil || seen[lk.g] {
+			continue
+		}
+		t := lk.g.Type().(*types.Pointer).Elem().Underlying()
+		var elem types.Type
+		switch x := t.(type) {
+		case *types.Slice:
+			elem = x.Elem()
+		case *types.Array:
+			elem = x.Elem()
+		}
+		st, ok := elem.Underlying().(*types.Struct)
+		if !ok || lk.keyField >= st.NumFields() || !isStringType(st.Field(lk.keyField).Type()) {
+			continue
+		}
+		listField, n := -1, 0
+		for i := 0; i < st.NumFields(); i++ {
+			if sl, isSl := st.Field(i).Type().Underlying().(*types.Slice); isSl && isStringType(sl.Elem()) {
+				listField = i
+				n++
+			}
+		}
+		if n != 1 {
+			continue
+		}
+		seen[lk.g] = true
+		out = append(out, keyedListTable{lk.g, lk.keyField, listField})
+	}
+	return out
+}
+
+// listOfFoundRow: v is the list member of the row a keyed lookup in a keyedListTable has returned: the lookup's call site.
+func (w *World) listOfFoundRow(v ssa.Value) (foundRow, bool) {
+	fr, f, ok := w.foundRowMember(v)
+	if !ok {
+		return fr, false
+	}
+	for _, t := range w.keyedListTables() {
+		if t.g == fr.lk.g && t.listField == f {
+			return fr, true
+		}
+	}
+	return fr, false
+}
+
+// sameFoundRowList: a and b read the list member of the row the same lookup has returned.
+func (w *World) sameFoundRowList(a, b ssa.Value) bool {
+	fa, okA := w.listOfFoundRow(a)
+	fb, okB := w.listOfFoundRow(b)
+	return okA && okB && fa.call == fb.call
+}
+
+// ---- a package-level record that holds defaults ----
+
+var globalRecordMemo = map[*ssa.Global]map[int]ssa.Value{}
+
+// globalRecordInit: g is a package-level record (`var defaultPadding = Padding{PadChar: "' '"}`) that the package initialiser
+// assigns once, from a literal, and that nothing writes or takes the address of afterwards: what the literal gives each member (a
+// member it does not mention is absent: it holds the zero value of its type). ok is false when g is not of that kind.
+func (w *World) globalRecordInit(g *ssa.Global) (members map[int]ssa.Value, ok bool) {
+	if m, have := globalRecordMemo[g]; have {
+		return m, m != nil
+	}
+	globalRecordMemo[g] = nil
+	if g.Pkg == nil {
+		return nil, false
+	}
+	if _, isStruct := g.Type().(*types.Pointer).Elem().Underlying().(*types.Struct); !isStruct {
+		return nil, false
+	}
+	initFn := g.Pkg.Func("init")
+	members = map[int]ssa.Value{}
+	good := true
+	wholeStores := 0
+	fillFrom := func(rec ssa.Value) {
+		if rec.Referrers() == nil {
+			return
+		}
+		for _, ref := range *rec.Referrers() {
+			fa, isFA := ref.(*ssa.FieldAddr)
+			if !isFA || fa.Referrers() == nil {
+				continue
+			}
+			for _, r2 := range *fa.Referrers() {
+				if st, isSt := r2.(*ssa.Store); isSt && st.Addr == ssa.Value(fa) {
+					if _, dup := members[fa.Field]; dup {
+						good = false
+					}
+					members[fa.Field] = stripIdentity(st.Val)
+				}
+			}
+		}
+	}
+	for fn := range w.allFuncs {
+		if fn.Blocks == nil || !good {
+			continue
+		}
+		if g.Object() != nil && !g.Object().Exported() && pkgOfFunc(fn) != g.Pkg {
+			continue
+		}
+		forEachInstr(fn, func(_ *ssa.BasicBlock, ins ssa.Instruction) {
+			uses := false
+			for _, op := range ins.Operands(nil) {
+				if op != nil && *op == ssa.Value(g) {
+					uses = true
+				}
+			}
+			if !uses {
+				return
+			}
+			switch x := ins.(type) {
+			case *ssa.UnOp:
+				if x.Op != token.MUL {
+					good = false
+				}
+			case *ssa.DebugRef:
+			case *ssa.Store:
+				if x.Addr != ssa.Value(g) || fn != initFn {
+					good = false
+					return
+				}
+				wholeStores++
+				switch v := stripIdentity(x.Val).(type) {
+				case *ssa.UnOp:
+					al, isAl := v.X.(*ssa.Alloc)
+					if v.Op != token.MUL || !isAl || recordCopyOnlyRead(al, x) == false {
+						good = false
+						return
+					}
+					fillFrom(al)
+				case *ssa.Const: // the zero record
+				default:
+					good = false
+				}
+			case *ssa.FieldAddr:
+				// a member of the variable: read anywhere, written only by the initialiser
+				if x.Referrers() == nil {
+					return
+				}
+				for _, r2 := range *x.Referrers() {
+					switch y := r2.(type) {
+					case *ssa.UnOp, *ssa.DebugRef:
+					case *ssa.Store:
+						if y.Addr != ssa.Value(x) || fn != initFn {
+							good = false
+							return
+						}
+						if _, dup := members[x.Field]; dup {
+							good = false
+						}
+						members[x.Field] = stripIdentity(y.Val)
+					default:
+						good = false
+					}
+				}
+			default:
+				good = false
+			}
+		})
+	}
+	if !good || wholeStores > 1 {
+		return nil, false
+	}
+	globalRecordMemo[g] = members
+	return members, true
+}
+
+// recordCopyOnlyRead: the literal record al is only filled member by member and then copied by the store `copy`.
+func recordCopyOnlyRead(al *ssa.Alloc, copy *ssa.Store) bool {
+	if al.Referrers() == nil {
+		return false
+	}
+	for _, ref := range *al.Referrers() {
+		switch x := ref.(type) {
+		case *ssa.FieldAddr:
+			if x.Referrers() != nil {
+				for _, r2 := range *x.Referrers() {
+					if st, isSt := r2.(*ssa.Store); !isSt || st.Addr != ssa.Value(x) {
+						if _, isDbg := r2.(*ssa.DebugRef); !isDbg {
+							return false
+						}
+					}
+				}
+			}
+		case *ssa.UnOp:
+			if stripIdentity(copy.Val) != ssa.Value(x) {
+				return false
+			}
+		case *ssa.DebugRef:
+		default:
+			return false
+		}
+	}
+	return true
 }
